@@ -1,5 +1,5 @@
 """C05 — no variable is used out of scope, shadowed, or with its declaration skipped."""
-import random, collections
+import random, collections, re
 from .. import common as C
 from .. import gen_bodies as G
 from .. import sexp
@@ -102,6 +102,14 @@ def cases(tier, seed):
         out.append(("r", G.random_body(rng, 3, rng.randint(1, 30 if i % 5 == 0 else 9), leaves, 0.12, 0.08)))
     for i in range(6000 if tier == "quick" else 150000):
         out.append(("s", G.smart_body(rng, 3, rng.randint(2, 14), ['r', 'p'], ['a', 'b', 'c', 'return'])))
+    # brace-less branches (rejected by the syntax analysis, E840, unless the branch is a goto) and jumps
+    # into blocks (rejected by the label scoper, E400): the skip rule relies on both rejections
+    for i in range(1500 if tier == "quick" else 40000):
+        body = G.random_body(rng, 2, rng.randint(1, 6), leaves, 0.15, 0.1)
+        k = rng.randrange(len(body) + 1)
+        extra = rng.choice([('ifs', ('decl', 'x'), None), ('ifs', ('use', 'x'), ('decl', 'y')), ('ifs', ('goto', 'a'), ('decl', 'x')),
+                            ('block', [('decl', 'y'), ('block', [('label', 'a'), ('use', 'y')])]), ('block', [('label', 'b'), ('use', 'x')])])
+        out.append(("n", body[:k] + [extra] + body[k:]))
     return out, nex, maxn
 
 
@@ -138,6 +146,9 @@ def run(tier):
             srcs.append(("%s%dt%d" % (k, i, t), program(b, t)))
     impl = C.run_harness("front", srcs, ck.work)
     items = [("vars", cid, impl[cid][2]) for cid, _ in srcs if cid in impl and len(impl[cid]) >= 3 and impl[cid][2].startswith("(")]
+    # the specifications of the two earlier stages the skip rule relies on (C04 labels, C06 syntax)
+    items += [("labels", cid + "L", impl[cid][1]) for cid, _ in srcs if cid in impl and len(impl[cid]) >= 3 and impl[cid][1].startswith("(")]
+    items += [("syntax", cid + "S", impl[cid][1]) for cid, _ in srcs if cid in impl and len(impl[cid]) >= 3 and impl[cid][1].startswith("(")]
     model = C.run_model(items, ck.work)
     dist = collections.Counter(); distinct = set(); mism = 0
     VAR = {"402", "422", "424", "482"}
@@ -150,6 +161,13 @@ def run(tier):
         elif verdict.startswith("err codes="): real = [x for x in verdict[len("err codes="):].strip("[]").split(",") if x]
         else:
             ck.violation("impl-failure:" + verdict.split(" ")[0], "implementation did not produce a verdict: " + verdict, src); continue
+        if verdict.startswith("ok"):
+            for suffix, what in (("L", "label scoping (E400/E420)"), ("S", "the syntax analysis (E800/E801/E840)")):
+                ms = model.get(cid + suffix, "")
+                sp = re.search(r"spec=\[([0-9,]*)\]", ms)
+                if sp and sp.group(1):
+                    mism += 1
+                    ck.violation("accepted-against-earlier-stage", "the program is accepted although %s requires %s" % (what, sp.group(1)), "source:\n%s\nshape: %s" % (src, f[1]))
         real_var = sorted(x for x in real if x in VAR)
         dist[",".join(real_var)] += 1
         if not mm:
@@ -161,6 +179,13 @@ def run(tier):
         mod = sorted(x for x in mm["model"].strip("[]").split(",") if x)
         orc = [str(x) for x in oracle(f[2])]
         replay = "source:\n%s\nlabel-resolved shape: %s\nreal: %s\nmodel: %s\nindex oracle: %s" % (src, f[2], verdict, m, orc)
+        if cid.startswith("n"):
+            # a branch rejected by a later stage (E840) is replaced as a whole and loses the codes inside it:
+            # only acceptance (above) and the absence of invented codes are checked for these inputs
+            if not set(real_var) <= set(orc) or (verdict.startswith("ok") and orc):
+                mism += 1
+                ck.violation("wrong-verdict", "implementation reports %s, the index-based definition allows at most %s" % (real_var, orc), replay)
+            continue
         if set(orc) != set(real_var):
             mism += 1
             ck.violation("wrong-verdict", "implementation reports %s but the index-based definition (visible binding / skipped declaration) requires %s" % (real_var, orc), replay)
